@@ -82,7 +82,7 @@ func pick(r *rand.Rand, ws []weighted) string {
 }
 
 var denomKinds = []weighted{
-	{26, "enabled"}, {7, "multi2nd"}, {5, "hop"}, {6, "disabled"}, {8, "paused"}, {4, "dead"}, {8, "ext"}, {4, "extdry"}, {5, "siphon"}, {5, "delay"},
+	{26, "enabled"}, {7, "multi2nd"}, {5, "hop"}, {5, "hop-via-our-own-channel-id"}, {6, "disabled"}, {8, "paused"}, {4, "dead"}, {8, "ext"}, {4, "extdry"}, {5, "siphon"}, {5, "delay"},
 	{6, "unregistered"}, {4, "a-native"}, {5, "fresh"}, {5, "returning-stake"}, {5, "returning-bcoin"}, {2, "returning-overdraw"},
 	{2, "returning-unknown"}, {6, "hostile"},
 }
@@ -124,6 +124,15 @@ func (w *world) genSpec(r *rand.Rand, fullStack bool) *spec {
 		usePair(lbl("multi1"))
 	case "hop":
 		usePair(lbl("hop0"))
+		s.honest = false
+	case "hop-via-our-own-channel-id":
+		// a two-hop coin whose FIRST hop happens to read like our own end of this channel (identifiers are per chain,
+		// channel-0 exists everywhere); not a returning coin: the source prefix is another one. The voucher it becomes is
+		// not the registered one-hop voucher, which receivers hold as well
+		p := lbl("multi0") // every user holds a few million of its one-hop voucher
+		s.Ch = p.ch
+		cc := w.chans[s.Ch]
+		s.Denom = cc.dstPort + "/" + cc.dstChan + "/" + p.base
 		s.honest = false
 	case "disabled":
 		usePair(lbl("disabled0"))
